@@ -632,7 +632,15 @@ func init() {
 				}
 			}
 		}
-		return fmt.Sprintf("%s clean=%v same=%v", observeGraph(s).enc(), clean, same)
+		// a second list goes through the same operation and is merged with styled cues: none of this list's business
+		res := observeGraph(s).enc()
+		t := g.build()
+		t.RemoveStyling()
+		t.Merge(g.build())
+		if observeGraph(s).enc() != res {
+			same = false
+		}
+		return fmt.Sprintf("%s clean=%v same=%v", res, clean, same)
 	}, gen: func(c *ctx) {
 		r := newRng(c.seed, "ops.removestyling")
 		nr := 10000
